@@ -88,9 +88,9 @@ type Case struct {
 	Out  *ProbeJ `json:"out,omitempty"`
 	Out2 *ProbeJ `json:"out2,omitempty"`
 	// p
-	Target string    `json:"target,omitempty"` // exec | http
-	Evs    []string  `json:"evs,omitempty"`    // start stop S F
-	PObs   [][]bool  `json:"pobs,omitempty"`   // per event: [] = no callback, [ok,fatal]
+	Target string   `json:"target,omitempty"` // exec | http
+	Evs    []string `json:"evs,omitempty"`    // start stop S F
+	PObs   [][]bool `json:"pobs,omitempty"`   // per event: [] = no callback, [ok,fatal]
 	// h
 	Cfg  *CfgJ  `json:"cfg,omitempty"`
 	Ops  []OpJ  `json:"ops,omitempty"`
@@ -870,6 +870,7 @@ func main() {
 	replay := flag.String("replay", "", "re-run the cases of this JSON file instead of generating")
 	corpus := flag.String("corpus", "", "directory with corpus cases (*.json) that run first")
 	parts := flag.String("parts", "vph", "which parts to generate")
+	shard := flag.Int("shard", 3000, "validate cases per generated .v file")
 	slow := flag.Bool("slow", false, "part h: sequential, long settle windows (used to confirm a disagreement)")
 	flag.Parse()
 	zerolog.SetGlobalLevel(zerolog.Disabled)
@@ -989,25 +990,45 @@ func main() {
 	wg.Wait()
 	tp := time.Since(t0)
 
-	var sb strings.Builder
-	sb.WriteString("From Coq Require Import List ZArith NArith Bool.\nFrom PC.Probe Require Import Model Check.\nImport ListNotations.\n")
-	writeList(&sb, "vcases", "vcase", vs)
-	writeList(&sb, "pcases", "pcase", ps)
-	writeList(&sb, "hcases", "hcase", hs)
-	for _, x := range []string{"v", "p", "h"} {
-		fmt.Fprintf(&sb, "Definition r_bad_model_%s := Eval vm_compute in bad_model_%s %scases.\nPrint r_bad_model_%s.\n", x, x, x, x)
-		fmt.Fprintf(&sb, "Definition r_bad_monitor_%s := Eval vm_compute in bad_monitor_%s %scases.\nPrint r_bad_monitor_%s.\n", x, x, x, x)
+	// Gallina: shard 0 holds the prober and process cases and the first slice of the validate cases
+	nshards := 1
+	if len(vs) > *shard {
+		nshards = (len(vs) + *shard - 1) / *shard
 	}
-	sb.WriteString("Definition r_clauses_h := Eval vm_compute in clauses_h hcases.\nPrint r_clauses_h.\n")
-	if err := os.WriteFile(filepath.Join(*out, "cases_C10.v"), []byte(sb.String()), 0o644); err != nil {
-		panic(err)
+	for k := 0; k < nshards; k++ {
+		var sb strings.Builder
+		sb.WriteString("From Coq Require Import List ZArith NArith Bool.\nFrom PC.Probe Require Import Model Check.\nImport ListNotations.\n")
+		lo, hi := k**shard, (k+1)**shard
+		if hi > len(vs) {
+			hi = len(vs)
+		}
+		if lo > hi {
+			lo = hi
+		}
+		writeList(&sb, "vcases", "vcase", vs[lo:hi])
+		if k == 0 {
+			writeList(&sb, "pcases", "pcase", ps)
+			writeList(&sb, "hcases", "hcase", hs)
+		} else {
+			writeList(&sb, "pcases", "pcase", nil)
+			writeList(&sb, "hcases", "hcase", nil)
+		}
+		sb.WriteString("Open Scope nat_scope.\n")
+		for _, x := range []string{"v", "p", "h"} {
+			fmt.Fprintf(&sb, "Definition r_bad_model_%s := Eval vm_compute in bad_model_%s %scases.\nPrint r_bad_model_%s.\n", x, x, x, x)
+			fmt.Fprintf(&sb, "Definition r_bad_monitor_%s := Eval vm_compute in bad_monitor_%s %scases.\nPrint r_bad_monitor_%s.\n", x, x, x, x)
+		}
+		sb.WriteString("Definition r_clauses_h := Eval vm_compute in clauses_h hcases.\nPrint r_clauses_h.\n")
+		if err := os.WriteFile(filepath.Join(*out, fmt.Sprintf("cases_C10_%d.v", k)), []byte(sb.String()), 0o644); err != nil {
+			panic(err)
+		}
 	}
 	all := map[string][]*Case{"v": vs, "p": ps, "h": hs}
 	js, _ := json.Marshal(all)
 	if err := os.WriteFile(filepath.Join(*out, "cases_C10.json"), js, 0o644); err != nil {
 		panic(err)
 	}
-	stats := map[string]interface{}{"v_cases": len(vs), "p_cases": len(ps), "h_cases": len(hs),
+	stats := map[string]interface{}{"shards": nshards, "shard_size": *shard, "v_cases": len(vs), "p_cases": len(ps), "h_cases": len(hs),
 		"v_ms": tv.Milliseconds(), "p_ms": tp.Milliseconds(), "h_ms": th.Milliseconds()}
 	kinds := map[string]int{}
 	for _, c := range cases {
